@@ -108,6 +108,15 @@ func (t *Object) Extend(x Type) error {
 	return t.Base.Extend(x)
 }
 
+func (t *Object) unextend() func() {
+	base, nf, ni := t.Base.unextend(), len(t.fields.list), len(t.Interfaces)
+	return func() {
+		base()
+		t.fields.truncate(nf)
+		t.Interfaces = t.Interfaces[:ni]
+	}
+}
+
 // GetField returns the field matching the name or nil if not found.
 func (t *Object) GetField(name string) *FieldDef {
 	return t.fields.get(name)
